@@ -149,10 +149,14 @@ func esApply(s *MemoryEventStore, toks []string) (obs string) {
 // synctest bubble on the virtual clock) before the call (c = 0) or in the loop body of the c-th yielded item
 // (c >= 1; c = the number of items: after the last; never, if fewer than c items arrive).
 // stop = drain | stop@<k>: the consumer breaks out of the loop in the body of the k-th item (k >= 1).
-// Script entries (sorted by <pt> >= 1) are API calls issued from INSIDE the iteration, in the body of the
+// Script entries (sorted by <pt>) with <pt> >= 1 are API calls issued from INSIDE the iteration, in the body of the
 // <pt>-th item (after the loop, in order, if the iteration never gets that far, so that every entry runs exactly
 // once): append:<sess>:<stream>:<payload>, closed:<sess>, setmax:<n>, open:<sess>:<stream>,
 // after:<sess>:<stream>:<idx> (a second, complete iteration with a live context, interleaved with this one).
+// Entries with <pt> = 0 (append / closed / setmax / open only) are THE WINDOW: calls issued after After has
+// RETURNED the iterator and before the consumer takes its first step (the streamable server obtains the
+// iterator and ranges over it later; any other goroutine's calls may fall in between).  They are whole API
+// calls of their own: the iteration must answer for the stream as it is when it starts.
 // Before the first entry that runs inside the loop the store's lock is probed (TryLock): an iterator that
 // delivers while holding it would deadlock every call from the loop body.
 //
@@ -250,7 +254,9 @@ func esIterRun(s *MemoryEventStore, toks []string, ctx context.Context, cpt int,
 	items := []string{}
 	term := "end"
 	n := 0
-	for d, err := range s.After(ctx, toks[1], toks[2], idx) {
+	seq := s.After(ctx, toks[1], toks[2], idx)
+	runUpTo(0, false) // the window between After's return and the first step of the iteration
+	for d, err := range seq {
 		if term != "end" {
 			term = "goes-on"
 			break
@@ -345,6 +351,31 @@ func (g *esGen) iter(sess, stream string) string {
 		stop = "stop@" + strconv.Itoa(1+g.rng.Intn(avail+1))
 	}
 	op := fmt.Sprintf("iter %s %s %d %s %s", sess, stream, idx, ctx, stop)
+	// the window: 1-3 calls between After's return and the first step (a third of the iterations)
+	if g.rng.Intn(3) == 0 {
+		for e := 1 + g.rng.Intn(3); e > 0; e-- {
+			s2, t2 := g.pick()
+			if g.rng.Intn(2) == 0 {
+				s2 = sess
+			}
+			switch r := g.rng.Intn(10); {
+			case r < 5:
+				g.count[s2+"/"+t2]++
+				op += fmt.Sprintf(" 0:append:%s:%s:%s", s2, t2, g.payload())
+			case r < 6:
+				g.closed(s2)
+				op += fmt.Sprintf(" 0:closed:%s", s2)
+			case r < 9:
+				lim := []int{1, 2, 7, 64, 0}[g.rng.Intn(5)]
+				if lim != 0 {
+					g.limit = lim
+				}
+				op += fmt.Sprintf(" 0:setmax:%d", lim)
+			default:
+				op += fmt.Sprintf(" 0:open:%s:%s", s2, t2)
+			}
+		}
+	}
 	pt := 1
 	for e := g.rng.Intn(4); e > 0; e-- {
 		pt += g.rng.Intn(avail + 1)
@@ -583,6 +614,9 @@ func esIterTags(toks []string, obs string) []string {
 			if pt > nitems {
 				where = "after-loop"
 			}
+			if pt == 0 {
+				where = "window"
+			}
 			tags = append(tags, "iter-"+p[1]+"-"+where)
 		}
 	}
@@ -626,7 +660,11 @@ func esConcurrent(t *testing.T, out *verifOut) {
 					}
 					known := len(log) > 0
 					var got [][]byte
-					for d, err := range s.After(ctx, sess, "a", idx) {
+					seq := s.After(ctx, sess, "a", idx)
+					if rng.Intn(2) == 0 { // the window: a call of the goroutine's own between After's return and the first step
+						s.Append(ctx, sess, "b", []byte{byte(gi), 0xee, 0xee}[:1+rng.Intn(3)])
+					}
+					for d, err := range seq {
 						if err != nil {
 							if errors.Is(err, ErrEventsPurged) && len(got) == 0 && len(want) > 0 {
 								return ""
